@@ -226,6 +226,7 @@ package cluster
 // Start-up synchronisation is skipped only by a node that is the sole member of the server list.
 //@ func (*ClusterNode).Sync
 //@   property C14
+//@   requires len(c.Servers) >= 1
 //@   ensures ncalls(syncUserCollections) == 0 ==> len(old(c.Servers)) == 1 && old(c.Servers[0]) == old(c.MyHostname) && result == nil
 //@   ensures ncalls(syncUserCollections) == 1 && lastres(syncUserCollections) != nil ==> result != nil && ncalls(syncShards) == 0
 //@   ensures ncalls(syncShards) == 1 && lastres(syncShards) != nil ==> result != nil
